@@ -34,12 +34,12 @@ def run(tier, seed):
     v.sample({"scenarios": [e for e in evs if e.get("ev", "").startswith("lv.")], "backoff": [e for e in evs if e.get("ev") == "bo.seq" and len(e["errs"]) == 5][:3]})
     v.add_cov(evaluations=stats.get("sequences", 0) + stats.get("scenarios", 0), distinct_nontrivial=stats.get("sequences", 0) // 2 + stats.get("scenarios", 0),
               rule="back-off: every error/success sequence up to length 7 (10) for the three option sets frpc uses is fed to the real fast back-off manager (every delay must lie in the interval the specification derives from the "
-                   "history and the previous delay); fault scenarios on real frps / frpc pairs behind a relay: path black-holed then healed (mux on and off), healthy peer for 3 timeouts (mux on and off), peer sending invalid heartbeats, "
+                   "history and the previous delay); fault scenarios on real frps / frpc pairs behind a relay: path black-holed then healed (tcp with mux on and off, websocket), healthy peer for 3 timeouts (tcp with mux on and off, websocket), peer sending invalid heartbeats, "
                    "server stopped / replaced by one that refuses logins / restarted, scripted server that falls silent with sockets open; non-trivial = half of the sequences (those with at least one error) + the scenarios",
               driver_stats=stats)
     v.assumptions += ["wall-clock bounds are checked with a slack of 1.5 s (one watchdog period + scheduling); heartbeat interval 1 s, timeout 3 s",
                       "the spec-level liveness property holds under weak fairness and a bounded number of faults; traces establish the bounded-time instances",
-                      "kcp / quic / websocket transports are not driven"]
+                      "kcp / quic transports are not driven (datagram transports do not pass the tcp relay)"]
     v.finish()
 
 
